@@ -60,6 +60,19 @@ def _fv(v):
     return out
 
 
+def _positive(v):
+    x = to_x(v)
+    if x is None: return False
+    n, d = x.rational()
+    if not (n.single() and d.single()): return False
+    for p in (n, d):
+        (m, c), = p.t.items()
+        if c.im != 0 or c.re <= 0: return False
+        for a, e in m:
+            if a.kind != "pos": return False
+    return True
+
+
 def _is_scalar(v):
     if isinstance(v, X): return True
     if isinstance(v, (int, float)) and not isinstance(v, bool): return True
@@ -83,17 +96,26 @@ def summarise(I, n, it, st):
     trial = st.clone()
     memo = trial._memo
     entry = {}
+    flags = {}
     for nm in sorted(names):
         pre = st.env.get(nm)
         if pre is not None and _is_scalar(pre):
-            en = fresh(f"{nm}@"); KIND[en] = "real"
+            en = fresh(f"{nm}@"); KIND[en] = "pos" if _positive(pre) else "real"
             entry[nm] = (en, pre)
             trial.env[nm] = X.var(en)
+        elif isinstance(pre, bool):
+            # loop-carried flag: unknown at the entry of an arbitrary iteration
+            en = fresh(f"{nm}@")
+            c = Cond.get(("flag", en), f"{nm} (at loop entry)"); c.flag = (nm, pre)
+            flags[nm] = (c, pre)
+            trial.env[nm] = PV(c, True, False)
     cont0 = _containers(trial.env)
     len0 = {}
     for cid, cv in cont0.items():
         if isinstance(cv, ListVal): len0[cid] = len(cv.items)
         elif isinstance(cv, LocalArr): len0[cid] = len(cv.stores)
+    for cid, cv in cont0.items():
+        if isinstance(cv, ListVal) and getattr(cv, "trial", None) is None: cv.trial = (ivar, len(cv.items), bool(cv.per_iter))
     trial.ranges[ivar] = (X.const(0), count)
     trial.loop_exits = []
     if not is_while:
@@ -118,7 +140,8 @@ def summarise(I, n, it, st):
             while stack:
                 x = stack.pop()
                 if isinstance(x, PV):
-                    if not (_cond_fv(x.cond) & (entry_names | {ivar})) and (getattr(x.cond, "lt", None) is not None or getattr(x.cond, "eq", None) is not None):
+                    cf = _cond_fv(x.cond)
+                    if not (cf & (entry_names | {ivar, "<flag>", "<opaque>"})) and (getattr(x.cond, "lt", None) is not None or getattr(x.cond, "eq", None) is not None or getattr(x.cond, "tree", None) is not None):
                         return x.cond
                     stack.append(x.hi); stack.append(x.lo)
         return None
@@ -126,11 +149,15 @@ def summarise(I, n, it, st):
     def classify(newmap, depth=0):
         final = {}
         pending = {}
-        if depth < 4:
+        if depth < 40:
             c = split_cond([v for v in newmap.values() if isinstance(v, PV)])
             if c is not None:
                 hi = classify({k: pv_restrict(v, c, True) for k, v in newmap.items()}, depth + 1)
+                acc_hi = dict(summary.get("accumulators", {}))
+                summary["accumulators"] = {}
                 lo = classify({k: pv_restrict(v, c, False) for k, v in newmap.items()}, depth + 1)
+                acc_lo = dict(summary.get("accumulators", {}))
+                summary["accumulators"] = {k: mk_pv(c, acc_hi[k], acc_lo[k]) for k in acc_hi if k in acc_lo}
                 return {k: mk_pv(c, hi[k], lo[k]) for k in newmap}
         for nm, (en, pre) in entry.items():
             new = newmap.get(nm)
@@ -183,9 +210,30 @@ def summarise(I, n, it, st):
             else: final[nm] = subst_val(new, last)
         else:
             final[nm] = new if not is_while else new
+    # ---- per-iteration records must not mention bare entry symbols: an accumulator's entry value is its closed form,
+    #      any other loop-carried value becomes an (unknown) function of the iteration index
+    remap = {}
+    for nm, (en, pre) in entry.items():
+        acc = summary.get("accumulators", {}).get(nm)
+        if acc is not None and not is_while and to_x(pre) is not None and not (_fv(acc) & entry_names):
+            u = fresh("u")
+            remap[en] = pv_apply(lambda a_: to_x(pre) + mk_sum(u, X.var(ivar), a_.subst({ivar: X.var(u)})), acc)
+        else:
+            from .symalg import ARRAY_KIND
+            ARRAY_KIND[en] = KIND.get(en, "real")
+            remap[en] = mk_idx(en, [X.var(ivar)], KIND.get(en, "real"))
+    summary["remap"] = remap
+    summary["flags"] = flags
+
+    def rm(v):
+        return subst_pv(v, remap) if remap else v
     # ---- containers: convert growth during the trial iteration into per-iteration records
     inv = {id(v): k for k, v in memo.items()}    # clone id -> original id
     orig = _containers(st.env)
+    name_of = {}
+    for nm_, v_ in trial.env.items():
+        if isinstance(v_, (ListVal, LocalArr, DictVal)): name_of.setdefault(id(v_), nm_)
+    summary["appends_by_name"] = {}
     for cid, cv in _containers(trial.env).items():
         oid = inv.get(cid)
         if oid is None or oid not in orig: continue
@@ -193,10 +241,12 @@ def summarise(I, n, it, st):
         if isinstance(cv, ListVal):
             new_items = cv.items[len0.get(cid, 0):]
             summary["appends"][oid] = new_items
+            if cid in name_of: summary["appends_by_name"][name_of[cid]] = list(new_items)
             for item in new_items:
-                ov.per_iter.append((ivar, count, item))
+                ov.per_iter.append((ivar, count, _rm_deep(item, remap)))
             if getattr(cv, "sym_stores", None):
-                ov.sym_stores = getattr(ov, "sym_stores", []) + [(ivar, count) + tuple(s) for s in cv.sym_stores]
+                ov.sym_stores = getattr(ov, "sym_stores", []) + [(ivar, count, rm(s_[0]), _rm_deep(s_[1], remap)) for s_ in cv.sym_stores if len(s_) == 2] + \
+                    [s_ for s_ in cv.sym_stores if len(s_) != 2]
             # items mutated in place (D_arr[j].append) are handled by clients through the summary
         elif isinstance(cv, LocalArr):
             for rec in cv.stores[len0.get(cid, 0):]:
@@ -205,7 +255,7 @@ def summarise(I, n, it, st):
                 binders, sidx, val = rec[0], rec[1], rec[2]
                 extra = rec[3:]
                 nb = ((ivar, count),) + tuple(binders)
-                nrec = (nb, sidx, val) + tuple(extra)
+                nrec = (nb, tuple(rm(i_) for i_ in sidx), rm(val)) + tuple(extra)
                 nrec = _flatten_chunk(nrec, n, it, trial, summary)
                 ov.stores.append(nrec)
         elif isinstance(cv, DictVal):
@@ -228,12 +278,31 @@ def summarise(I, n, it, st):
     return None
 
 
+def subst_pv(v, remap):
+    """substitution whose replacement values may be decision trees."""
+    plain = {k: x for k, x in remap.items() if isinstance(x, X)}
+    trees = {k: x for k, x in remap.items() if isinstance(x, PV)}
+    if plain: v = subst_val(v, plain)
+    for k, t in trees.items():
+        if k in _fv(v) or (isinstance(v, Arr) and k in _fv(v.body)):
+            v = pv_apply(lambda leaf, k=k, v=v: subst_val(v, {k: leaf}), t)
+    return v
+
+
+def _rm_deep(v, remap):
+    if not remap: return v
+    if isinstance(v, ListVal):
+        v.items = [_rm_deep(e, remap) for e in v.items]
+        v.per_iter = [(p[0], subst_pv(p[1], remap), _rm_deep(p[2], remap)) + tuple(p[3:]) if isinstance(p, tuple) and len(p) >= 3 else p for p in v.per_iter]
+        return v
+    return subst_pv(v, remap)
+
+
 def _cond_fv(c):
-    d = getattr(c, "lt", None)
-    if d is not None: return d.fv()
-    e = getattr(c, "eq", None)
-    if e is not None: return e[1].fv() | e[2].fv()
-    return set()
+    from .values import _cond_fvs
+    if getattr(c, "flag", None) is not None: return {"<flag>"}
+    if c.key and c.key[0] in ("src",): return {"<opaque>"}
+    return _cond_fvs(c)
 
 
 def _goertzel(pending, entry, ivar, count, entry_names):
